@@ -19,7 +19,7 @@ def fate07(r):
 def spec_packet(o):
     if o["panic"]:
         return "panic: " + o["panic"]
-    if o["stuck"] or not o["errc_closed"]:
+    if not o["errc_closed"]:
         return "the error stream did not end after cancellation (%s)" % (o["stuck"] or "errc open")
     reqs = {r["id"]: r for r in (o["reqs"] or [])}
     wire = o["wire"] or []
@@ -146,6 +146,9 @@ def run(ctx):
             for gmp in ("1", "4"):
                 rows += batch(ctx, ctx.seed + int(gmp), 400, 400, tag="_g" + gmp, env={"GOMAXPROCS": gmp})
     judge(ctx, rows)
+    if not quick:
+        ctx.harness_race_run("c07", ["-out", "race7.jsonl", "-seed", ctx.seed + 9, "-n", 0, "-cancel", 400], "in the packet engine under cancellation")
+        ctx.harness_race_run("c08", ["-out", "race8.jsonl", "-seed", ctx.seed + 9, "-n", 0, "-cancel", 400], "in the application engine under cancellation")
     if ctx.broken and not ctx.findings and rows:
         for gmp in ("1", "2", "16"):
             more = batch(ctx, ctx.seed + 50 + int(gmp), 300, 300, tag="_s" + gmp, env={"GOMAXPROCS": gmp})
